@@ -7,7 +7,8 @@ Oracle: history checks + the small connectivity model below."""
 from sim import sio
 from sim.world import make_world
 from sim.util import typed_eq, wire_norm
-from .common import (V, Registry, trepr, pkt_key, REAL_SERVER, STUBS)
+from .common import (V, Registry, trepr, pkt_key, REAL_SERVER, STUBS,
+                     legacy_arity, legacy_namespace)
 import socketio
 
 PROP = 'C04'
@@ -53,6 +54,12 @@ def gen(rng, tier):
         'ping': rng.random() < 0.25,
         'send_pauses': rng.random() < 0.5,
         'catchall': rng.choice([None, None, 'func', 'class']),
+        # legacy disconnect handlers: no reason argument
+        'legacy_disc': rng.random() < 0.2,
+        # connect handlers declared (sid, environ, auth) or (sid, environ)
+        # instead of *args: the server tries without auth first when the
+        # client sent none
+        'connect_arity': rng.choice([None, None, 3, 3, 2]),
     }
     npeers = rng.randrange(1, 4)
     ops = []
@@ -182,26 +189,43 @@ def _run(case, cfg, w):
     events = ['connect', 'ping']
     if cfg['disc_handler']:
         events.append('disconnect')
+    legacy = bool(cfg.get('legacy_disc'))
+    carity = cfg.get('connect_arity')
+
+    def fn_handler(ns, evn):
+        h = w.make_handler(('s', 'func', ns, evn), plan, coroutine)
+        if legacy and evn == 'disconnect':
+            # (sid) - or (namespace, sid) for the catch-all namespace
+            h = legacy_arity(h, 2 if ns == '*' else 1, coroutine)
+        if carity and evn == 'connect':
+            h = legacy_arity(h, carity + (1 if ns == '*' else 0), coroutine)
+        return h
+
+    def cls_handler(ns):
+        base = socketio.AsyncNamespace if w.mode == 'async' \
+            else socketio.Namespace
+        o = w.make_namespace(ns, events, plan, server='s',
+                             coroutine=coroutine, base=base)
+        if legacy:
+            legacy_namespace(o, 'disconnect', 2 if ns == '*' else 1,
+                             coroutine)
+        if carity:
+            legacy_namespace(o, 'connect', carity + (1 if ns == '*' else 0),
+                             coroutine)
+        return o
+
     for ns in cfg['served']:
         if cfg['style'] == 'func':
             for evn in events:
-                srv.on(evn, w.make_handler(('s', 'func', ns, evn), plan,
-                                           coroutine), namespace=ns)
+                srv.on(evn, fn_handler(ns, evn), namespace=ns)
         else:
-            base = socketio.AsyncNamespace if w.mode == 'async' \
-                else socketio.Namespace
-            srv.register_namespace(w.make_namespace(
-                ns, events, plan, server='s', coroutine=coroutine, base=base))
+            srv.register_namespace(cls_handler(ns))
 
     if cfg.get('catchall') == 'func':
         for evn in events:
-            srv.on(evn, w.make_handler(('s', 'func', '*', evn), plan,
-                                       coroutine), namespace='*')
+            srv.on(evn, fn_handler('*', evn), namespace='*')
     elif cfg.get('catchall') == 'class':
-        base = socketio.AsyncNamespace if w.mode == 'async' \
-            else socketio.Namespace
-        srv.register_namespace(w.make_namespace(
-            '*', events, plan, server='s', coroutine=coroutine, base=base))
+        srv.register_namespace(cls_handler('*'))
 
     def nargs(e):
         """Handler arguments without the namespace prefix of catch-alls."""
@@ -263,7 +287,10 @@ def _run(case, cfg, w):
                 e['label'][2] == '*' and e['args'][0] != c['ns']):
             v.add('disconnect_handler_wrong_namespace', (e['label'], c['ns']))
         reason = nargs(e)[1] if len(nargs(e)) > 1 else None
-        if reason not in c.get('reasons', ()):
+        if legacy:
+            if len(nargs(e)) != 1:
+                v.add('legacy_disconnect_handler_arguments', nargs(e))
+        elif reason not in c.get('reasons', ()):
             v.add('disconnect_reason', '%s: sid %s got reason %r, causes in '
                   'progress allow %s' % (where, c['sid'], reason,
                                          sorted(c['reasons'])))
@@ -331,6 +358,9 @@ def _run(case, cfg, w):
             cid = peer.conn.cid
             behaviours[(cid, ns)] = beh
             auth = auth_value(authk)
+            if carity == 2 and auth:
+                auth = None   # a (sid, environ) handler cannot take auth:
+                #               such clients are outside what it supports
             n_before = len(w.rec.events)
             new_rx(p)
             peer.send_pkt(sio.CONNECT, ns, None, auth)
